@@ -40,8 +40,12 @@ func runC12(c *Ctx) {
 	// an open request also runs through the session wrapper: an index that can be out of range
 	// there (or in the shim) panics in the request goroutine before the session is set up
 	ruleExternalIndexInBounds(c, p, "C12.N", "agent/websockets", "agent/sessions")
+	ruleSizesFromOutsideAreSane(c, p, "C12.N", "agent/websockets", "agent/sessions")
 	c.Rule("C12.A", "every endpoint path answers once, with an allowed status", 15)
 	c.Rule("C12.U", "unknown or closed sessions are rejected with 400 and forgotten; received messages are delivered first", 16)
+	// what ReadServerMessages took from the queue it returns (= C11.O): a size cap that parks a
+	// frame larger than the cap holds it, and everything behind it, back for ever
+	c.Borrow(runC11, "C11.O", "C12.U", func(k string) bool { return strings.HasPrefix(k, "ReadServerMessages:") })
 	c.Rule("C12.L", "connection lifecycle pairing; the handshake with the backend is bounded in time", 10)
 
 	ruleShimChannels(c, p, "C12.C", "C12.B")
